@@ -373,10 +373,10 @@ class Interp:
         b_raises = _only_raises(st.body)
         o_raises = bool(st.orelse) and _only_raises(st.orelse)
         if b_raises and not o_raises:
-            self.assumed.append((mod.path, st.lineno, up(st.test), False, 'raise-guard'))
+            self.assumed.append((mod.path, st.lineno, up(st.test), False, 'raise-guard', tv))
             return self.block(st.orelse, env, mod)
         if o_raises and not b_raises:
-            self.assumed.append((mod.path, st.lineno, up(st.test), True, 'raise-guard'))
+            self.assumed.append((mod.path, st.lineno, up(st.test), True, 'raise-guard', tv))
             return self.block(st.body, env, mod)
         # if-conversion on a symbolic scalar condition
         if isinstance(tv, Arr) and tv.ndim == 0 and tv.mask is None and _is_boolean(tv.poly):
@@ -1557,6 +1557,13 @@ class Interp:
                 return Arr((), a.poly + alg.lt(a.poly, b.poly) * (b.poly - a.poly), unit=a.unit)
             if last == 'isinstance':
                 return self._isinstance(args[0], args[1], e)
+            if last == 'bool' and len(args) == 1:
+                x = args[0]
+                if x is None or isinstance(x, (bool, int, float, str, list, tuple, dict)):
+                    return bool(x)
+                if isinstance(x, Arr) and x.ndim == 0 and x.mask is None:
+                    return Arr((), alg.b_not(alg.mk_ind('==0', x.poly)))
+                return Unk('bool(%r)' % (x,), e)
             if last == 'type':
                 return Unk('type()', e)
             if last in ('print',):
